@@ -154,7 +154,10 @@ def check_early_exits(ctx, modname):
             for g, (e_, k_) in EXIT_PROFILE.items():
                 if cr.fn(g) is None and (g.rsplit('::', 1)[0] in (parent, path)):
                     want = (want[0] + e_, want[1] + k_)
-            ok = have[0] <= want[0] and have[1] <= want[1]
+            # only the ways OUT are compared.  A second way back to the head (`continue`) is how a guard clause is
+            # written (`if !c { continue }` for `if c { .. }`): it skips part of one iteration, which is what the
+            # per-iteration obligations of the loop rules look at; counting it would flag that rewriting
+            ok = have[0] <= want[0]
             ctx.obligation(ok)
             if ok:
                 ctx.ok(pfx + '.G1', '%s.G1/%s/early-exits-in-loops-accounted' % (pfx, path), path, f.site(), {'early_exits': have[0], 'skips': have[1]}, cfg)
